@@ -35,6 +35,7 @@ def run_children(ctx, scenarios, batch=6, workers=None, settle=40, timeout=2500)
     key = os.path.join(ctx.wd, "rsa.key")
     if not os.path.exists(key):
         C.run_harness(ctx, ["rsakey", key])
+        C.run_harness(ctx, ["rsakey", key + ".2"])
     n = len(scenarios)
     slices = [(i, min(batch, n - i)) for i in range(0, n, batch)]
     workers = workers or min(C.NCPU, 12)
@@ -395,7 +396,13 @@ def run_c17_part(ctx):
         sid += 1
         scs.append(mk(sid, "migrate-text-" + text, "migrate", [{"a": "Probe", "tag": 90}, call("c1", 11),
                    {"a": "AnswerError", "tag": 11, "code": 303, "text": text}, {"a": "Await", "c": "c1"}, {"a": "Probe", "tag": 91}, {"a": "Settle"}], dc={"dc2": 2}))
-    st = judge(ctx, scs, K_RESULT | K_LIVE | K_CONNECT | {"rejected-request-not-resent", "accepted-request-resent"}, "c17")
+    # PHONE_MIGRATE_X is the one error that is handled: its 303 relatives are returned to the caller like every other error,
+    # with the second data centre configured and never contacted
+    for text in ("USER_MIGRATE_2", "NETWORK_MIGRATE_2", "FILE_MIGRATE_2", "STATS_MIGRATE_2"):
+        sid += 1
+        scs.append(mk(sid, "not-handled-" + text, "migrate", [{"a": "Probe", "tag": 90}, call("c1", 11),
+                   {"a": "AnswerError", "tag": 11, "code": 303, "text": text}, {"a": "Await", "c": "c1"}, {"a": "Probe", "tag": 91}, {"a": "Settle"}], dc={"dc2": 2}))
+    st = judge(ctx, scs, K_RESULT | K_LIVE | K_CONNECT | {"rejected-request-not-resent", "accepted-request-resent", "request-nobody-asked-for"}, "c17")
     return {"histories": len(scs), "evaluations": st["events"], "coverage": {"end_to_end": st}}
 
 
